@@ -157,12 +157,13 @@ type offerTracker struct {
 	received        map[string][]byte
 	stalledSince    []time.Duration // establishment times of inbound streams the puppet stalls
 	noListenAt      []time.Duration // when an offer was accepted without any listener behind the connection id
+	pendingDial     map[uint16]time.Duration // accepted offers whose stream the offerer has not established yet (by connection id)
 	now             func() time.Duration
 	outcomes        map[string]int
 }
 
 func newOfferTracker() *offerTracker {
-	return &offerTracker{received: map[string][]byte{}, outcomes: map[string]int{}}
+	return &offerTracker{received: map[string][]byte{}, outcomes: map[string]int{}, pendingDial: map[uint16]time.Duration{}}
 }
 
 // serveOffer implements the puppet side of an OFFER it received, according to outcome.
@@ -200,6 +201,10 @@ func (p *puppet) serveOffer(w *world, tr *offerTracker, myVers, peerVers []uint8
 		return encAccept(ver, 4242, all)
 	}
 	cid := p.utp.CidWithAddr(from, addr, false)
+	if tr.now != nil {
+		tr.pendingDial[cid.Send] = tr.now()
+	}
+	_ = 0
 	go func() {
 		ctx, cancel := context.WithTimeout(context.Background(), 30*time.Second)
 		defer cancel()
